@@ -39,6 +39,9 @@ def canon(v):
     return _canon0(v)
 
 
+WORLD = None
+
+
 class Budget(Exception):
     pass
 
@@ -198,7 +201,7 @@ def is_atom(a):
 def elems(a):
     """members of a non-atom: list items, or the characters of a string"""
     if is_str(a):
-        return [KGChar(c) for c in a]
+        return list(WORLD.k._backend.str_to_chr_arr(a))      # the interpreter's own character objects
     return list(a)
 
 
@@ -222,7 +225,12 @@ def truth(v):
 def same(x, y):
     """fixpoint test of Converge on exact values: equality of canonical forms, as strict as Klong's Match on exact
     values (a list of characters and a string are different values there); reals are excluded by the generators"""
-    return canon(x) == canon(y)
+    cx, cy = canon(x), canon(y)
+    if cx == cy:
+        return True
+    # a character equals the one-character string of it (Python str equality inside kg_equal)
+    one = lambda c: c[0] in ("c", "s") and len(c) == 2
+    return one(cx) and one(cy) and cx[1] == cy[1]
 
 
 def expansion(w, adv, vid, a, left=None):
@@ -403,6 +411,8 @@ def build_text(case):
 
 
 def run_case(w, case):
+    global WORLD
+    WORLD = w
     k = w.k
     out = {}
     text = build_text(case)
@@ -514,6 +524,8 @@ def generic_monadic(w, adv, f1, a):
 
 def main():
     w = World()
+    global WORLD
+    WORLD = w
     for line in sys.stdin:
         line = line.strip()
         if not line:
